@@ -6,95 +6,102 @@ namespace Lev
 open Script
 variable {α : Type}
 
-/-- spec-level table cell for the REVERSED prefixes `tr` of the target and `sr` of the source -/
-def cell (eq : α → α → Bool) (C : Costs) : List α → List α → Cell
+/-- spec-level table cell for the REVERSED prefixes `tr` of the target and `sr` of the source, for a cell rule -/
+def cellG (mk : CellRule α) (eq : α → α → Bool) (C : Costs) : List α → List α → Cell
   | [], sr => ⟨.del, sr.length * C.D⟩
   | _ :: tr, [] => ⟨.ins, (tr.length + 1) * C.I⟩
-  | x :: tr, y :: sr => mkCell eq C x y (cell eq C tr sr) (cell eq C tr (y :: sr)) (cell eq C (x :: tr) sr)
+  | x :: tr, y :: sr => mk eq C x y (cellG mk eq C tr sr) (cellG mk eq C tr (y :: sr)) (cellG mk eq C (x :: tr) sr)
 termination_by tr sr => tr.length + sr.length
+
+/-- the full-table rule -/
+def cell (eq : α → α → Bool) (C : Costs) (tr sr : List α) : Cell := cellG mkCell eq C tr sr
 
 /-! ### the rows the model computes are rows of `cell` -/
 
 /-- reversed prefix `pre ++ ys[0..n)` -/
 def rp (pre ys : List α) (n : Nat) : List α := (pre ++ ys.take n).reverse
 
-theorem scanRow_get (eq : α → α → Bool) (C : Costs) (x : α) (tr : List α) :
+theorem scanRowG_get (mk : CellRule α) (eq : α → α → Bool) (C : Costs) (x : α) (tr : List α) :
     ∀ (ys pre : List α) (diag left : Cell) (ups : List Cell),
-      (∀ k, ups[k]? = if k < ys.length then some (cell eq C tr (rp pre ys (k+1))) else none) →
-      diag = cell eq C tr pre.reverse → left = cell eq C (x :: tr) pre.reverse →
-      ∀ k, (scanRow eq C x diag left ups ys)[k]? =
-        if k < ys.length then some (cell eq C (x :: tr) (rp pre ys (k+1))) else none := by
+      (∀ k, ups[k]? = if k < ys.length then some (cellG mk eq C tr (rp pre ys (k+1))) else none) →
+      diag = cellG mk eq C tr pre.reverse → left = cellG mk eq C (x :: tr) pre.reverse →
+      ∀ k, (scanRowG mk eq C x diag left ups ys)[k]? =
+        if k < ys.length then some (cellG mk eq C (x :: tr) (rp pre ys (k+1))) else none := by
   intro ys
   induction ys with
   | nil =>
     intro pre diag left ups _ _ _ k
-    cases ups <;> simp [scanRow]
+    cases ups <;> simp [scanRowG]
   | cons y ys ih =>
     intro pre diag left ups hups hd hl k
     cases ups with
     | nil => have := hups 0; simp at this
     | cons up ups' =>
-      have hup : up = cell eq C tr (y :: pre.reverse) := by
+      have hup : up = cellG mk eq C tr (y :: pre.reverse) := by
         have := hups 0; simp [rp] at this; exact this
-      have hc : mkCell eq C x y diag up left = cell eq C (x :: tr) (y :: pre.reverse) := by
-        rw [cell, hd, hl, hup]
-      simp only [scanRow]
+      have hc : mk eq C x y diag up left = cellG mk eq C (x :: tr) (y :: pre.reverse) := by
+        rw [cellG, hd, hl, hup]
+      simp only [scanRowG]
       cases k with
       | zero => simp [rp, hc]
       | succ k =>
-        have hups' : ∀ k, ups'[k]? = if k < ys.length then some (cell eq C tr (rp (pre ++ [y]) ys (k+1))) else none := by
+        have hups' : ∀ k, ups'[k]? = if k < ys.length then some (cellG mk eq C tr (rp (pre ++ [y]) ys (k+1))) else none := by
           intro k
           have := hups (k+1)
           simp only [List.getElem?_cons_succ, List.length_cons, Nat.add_lt_add_iff_right] at this
           rw [this]; simp [rp]
-        have := ih (pre ++ [y]) up (mkCell eq C x y diag up left) ups' hups'
+        have := ih (pre ++ [y]) up (mk eq C x y diag up left) ups' hups'
           (by rw [hup]; simp) (by rw [hc]; simp) k
         simp only [List.getElem?_cons_succ, List.length_cons, Nat.add_lt_add_iff_right]
         rw [this]; simp [rp]
 
-theorem rowOf_get (eq : α → α → Bool) (C : Costs) (s : List α) (tr : List α) (j : Nat) :
-    (rowOf eq C s tr)[j]? = if j ≤ s.length then some (cell eq C tr (s.take j).reverse) else none := by
+theorem rowOfG_get (mk : CellRule α) (eq : α → α → Bool) (C : Costs) (s : List α) (tr : List α) (j : Nat) :
+    (rowOfG mk eq C s tr)[j]? = if j ≤ s.length then some (cellG mk eq C tr (s.take j).reverse) else none := by
   induction tr generalizing j with
   | nil =>
-    simp only [rowOf, row0, List.getElem?_map, List.getElem?_range', List.range_eq_range']
+    simp only [rowOfG, row0, List.getElem?_map, List.range_eq_range']
     by_cases h : j ≤ s.length
     · have : j < s.length + 1 := by omega
-      simp [h, this, cell, List.length_take, Nat.min_eq_left h]
+      simp [h, this, cellG, List.length_take, Nat.min_eq_left h]
     · have : ¬ j < s.length + 1 := by omega
       simp [h, this]
   | cons x tr ih =>
     have h0 := ih 0
     simp only [Nat.zero_le, if_true, List.take_zero, List.reverse_nil] at h0
-    cases hprev : rowOf eq C s tr with
+    cases hprev : rowOfG mk eq C s tr with
     | nil => rw [hprev] at h0; simp at h0
     | cons p0 ps =>
       rw [hprev] at h0
       simp only [List.getElem?_cons_zero, Option.some.injEq] at h0
-      simp only [rowOf, hprev, nextRow]
+      simp only [rowOfG, hprev, nextRowG]
       cases j with
       | zero =>
         simp only [List.getElem?_cons_zero, Nat.zero_le, if_true, List.take_zero, List.reverse_nil]
         congr 1
         rw [h0]
         cases tr with
-        | nil => simp [cell]
-        | cons a tr => simp [cell, Nat.add_mul]
+        | nil => simp [cellG]
+        | cons a tr => simp [cellG, Nat.add_mul]
       | succ j =>
-        have hups : ∀ k, ps[k]? = if k < s.length then some (cell eq C tr (rp [] s (k+1))) else none := by
+        have hups : ∀ k, ps[k]? = if k < s.length then some (cellG mk eq C tr (rp [] s (k+1))) else none := by
           intro k
           have := ih (k+1)
           rw [hprev] at this
           simp only [List.getElem?_cons_succ] at this
           rw [this]
           simp [rp, Nat.succ_le_iff]
-        have hleft : (⟨.ins, p0.cost + C.I⟩ : Cell) = cell eq C (x :: tr) ([] : List α).reverse := by
-          rw [h0]; simp [cell]
+        have hleft : (⟨.ins, p0.cost + C.I⟩ : Cell) = cellG mk eq C (x :: tr) ([] : List α).reverse := by
+          rw [h0]; simp [cellG]
           cases tr with
-          | nil => simp [cell]
-          | cons a tr => simp [cell, Nat.add_mul]
-        have := scanRow_get eq C x tr s [] p0 ⟨.ins, p0.cost + C.I⟩ ps hups (by rw [h0]; rfl) hleft j
+          | nil => simp [cellG]
+          | cons a tr => simp [cellG, Nat.add_mul]
+        have := scanRowG_get mk eq C x tr s [] p0 ⟨.ins, p0.cost + C.I⟩ ps hups (by rw [h0]; rfl) hleft j
         simp only [List.getElem?_cons_succ]
         rw [this]; simp [rp, Nat.succ_le_iff]
+
+theorem rowOf_get (eq : α → α → Bool) (C : Costs) (s : List α) (tr : List α) (j : Nat) :
+    (rowOf eq C s tr)[j]? = if j ≤ s.length then some (cell eq C tr (s.take j).reverse) else none :=
+  rowOfG_get mkCell eq C s tr j
 
 theorem tableRows_get (eq : α → α → Bool) (C : Costs) (s : List α) (t : List α) (row : List Cell) (acc : List α)
     (hrow : row = rowOf eq C s acc) (i : Nat) (hi : i ≤ t.length) :
@@ -159,7 +166,7 @@ theorem mkCell_tag (eq : α → α → Bool) (C : Costs) (x y : α) (diag up lef
 
 theorem cell_cons_cons (eq : α → α → Bool) (C : Costs) (x y : α) (tr sr : List α) :
     cell eq C (x :: tr) (y :: sr) = mkCell eq C x y (cell eq C tr sr) (cell eq C tr (y :: sr)) (cell eq C (x :: tr) sr) := by
-  rw [cell]
+  simp only [cell]; rw [cellG]
 
 /-- cost 0 forces the (reversed) prefixes to be pointwise eq-related -/
 theorem cell_zero (eq : α → α → Bool) (C : Costs) (hD : 1 ≤ C.D) (hR : 1 ≤ C.R) (hI : 1 ≤ C.I) :
@@ -168,7 +175,7 @@ theorem cell_zero (eq : α → α → Bool) (C : Costs) (hD : 1 ≤ C.D) (hR : 1
   induction tr generalizing sr with
   | nil =>
     intro h
-    rw [cell] at h
+    simp only [cell] at h; rw [cellG] at h
     have : sr.length = 0 := by
       rcases Nat.mul_eq_zero.mp h with h | h
       · exact h
@@ -179,7 +186,7 @@ theorem cell_zero (eq : α → α → Bool) (C : Costs) (hD : 1 ≤ C.D) (hR : 1
     induction sr with
     | nil =>
       intro h
-      rw [cell] at h
+      simp only [cell] at h; rw [cellG] at h
       rcases Nat.mul_eq_zero.mp h with h | h <;> omega
     | cons y sr ih2 =>
       intro h
